@@ -326,7 +326,13 @@ impl<'a> Model<'a> {
                 }
             }
             if self.checks.c17 {
-                self.check_trace(s, idx, &probe, &req, &got);
+                self.check_trace(s, idx, &probe, &req, &got, "");
+                // the same probe as a request that was NOT built with this router's configuration (what the explain
+                // API receives): tracing normalises it itself, so everything must agree with the normalised request
+                let raw = probe.to_request(&redirectionio::RouterConfig::default());
+                if serde_json::to_string(&raw).ok() != serde_json::to_string(&req).ok() {
+                    self.check_trace(s, idx, &probe, &raw, &got, ":raw-request");
+                }
             }
             if self.checks.c12 {
                 let fresh = rebuilt.as_ref().unwrap();
@@ -377,7 +383,7 @@ impl<'a> Model<'a> {
         });
     }
 
-    fn check_trace(&self, s: &State, idx: &[usize; DIMS], probe: &crate::universe::Probe, req: &redirectionio::http::Request, got: &[String]) {
+    fn check_trace(&self, s: &State, idx: &[usize; DIMS], probe: &crate::universe::Probe, req: &redirectionio::http::Request, got: &[String], variant: &str) {
         let traces = s.router.trace_request(req);
         let traced = Trace::<Rule>::get_routes_from_traces(&traces);
         let traced_set: BTreeSet<String> = traced.iter().map(|r| r.id().to_string()).collect();
@@ -392,12 +398,12 @@ impl<'a> Model<'a> {
             self.report(
                 s,
                 if only_trace.is_empty() { "trace-misses-rule" } else { "trace-has-extra-rule" },
-                &culprit,
+                &format!("{culprit}{variant}"),
                 format!("trace lists {traced_set:?}, matching the normalised request gives {matched_set:?} for {probe:?}"),
                 Some(idx),
             );
         }
-        if direct_set != matched_set {
+        if variant.is_empty() && direct_set != matched_set {
             self.report(
                 s,
                 "rebuild-request-changes-match",
@@ -415,7 +421,7 @@ impl<'a> Model<'a> {
             self.report(
                 s,
                 "trace-final-priority",
-                "",
+                variant.trim_start_matches(':'),
                 format!("traced final rule priority {final_prio:?} != priority of the rule selected by direct lookup {direct_prio:?} for {probe:?}"),
                 Some(idx),
             );
@@ -441,7 +447,7 @@ impl<'a> Model<'a> {
                 self.report(
                     s,
                     "trace-last-action",
-                    "",
+                    variant.trim_start_matches(':'),
                     format!("last action-trace step {last_json} != live action {live_json} for {probe:?}"),
                     Some(idx),
                 );
